@@ -19,8 +19,8 @@ func init() {
 	Registry["C18"] = c18
 	Metas["C18"] = Meta{Level: "other", NeedCG: true, Ref: true,
 		Technique: "static analysis: reader/writer switch-table symmetry over the type-checked AST, bound-before-allocation on every decoder allocation, field-coverage and branch-freedom of the canonical sign-bytes constructors, JSON-key distinctness tables, registration tables; RLP by translation validation against go-ethereum v1.8.27",
-		Explain: "Round-trip equality for all values is a statement about run-time values and is (R6) decoded slice chunks are fresh per iteration; (R7) encoder buffers are owned by the call; (R8) the varint readers reject nothing on the decoded magnitude. NOT decided. Decided: (R1) in go-wire/reflect.go the reflect.Kind case sets of the main switch of readReflectBinary/writeReflectBinary and of readReflectJSON/writeReflectJSON are equal (no kind can be written that cannot be read back, and vice versa); (R2) every allocation in the go-wire decoders whose size comes from the input is edge-dominated by a sign test and, unless the caller passed the 'no limit' value 0, by the limit test over max(length, n+length) (overflow-safe), and reflective slice decoding allocates in chunks of a constant size; (R3) the canonical sign-bytes constructors are branch-free, read every statement field of Vote / Proposal / BlockID / PartSetHeader into a distinct canonical field, the canonical structs have pairwise distinct JSON keys and no '-' tags, the wrappers add chain_id and use different top-level keys for votes and proposals (together with injectivity of go-wire's JSON writer on these field types this is the injectivity argument); (R4) eth/rlp is token- and resolution-equivalent to the reference; (R5) every wire.RegisterInterface call assigns pairwise distinct, non-zero type bytes, and the WAL and reactor registrations cover the message types that are sent or logged. NOT decided: round-trip equality, 'never panics' beyond R2.",
-		Assume: []string{"go-wire's JSON writer is injective on int/byte/string/[]byte/struct fields", "reflect-based decoding follows the struct field order"},
+		Explain:   "Round-trip equality for all values is a statement about run-time values and is (R6) decoded slice chunks are fresh per iteration; (R7) encoder buffers are owned by the call; (R8) the varint readers reject nothing on the decoded magnitude. NOT decided. Decided: (R1) in go-wire/reflect.go the reflect.Kind case sets of the main switch of readReflectBinary/writeReflectBinary and of readReflectJSON/writeReflectJSON are equal (no kind can be written that cannot be read back, and vice versa); (R2) every allocation in the go-wire decoders whose size comes from the input is edge-dominated by a sign test and, unless the caller passed the 'no limit' value 0, by the limit test over max(length, n+length) (overflow-safe), and reflective slice decoding allocates in chunks of a constant size; (R3) the canonical sign-bytes constructors are branch-free, read every statement field of Vote / Proposal / BlockID / PartSetHeader into a distinct canonical field, the canonical structs have pairwise distinct JSON keys and no '-' tags, the wrappers add chain_id and use different top-level keys for votes and proposals (together with injectivity of go-wire's JSON writer on these field types this is the injectivity argument); (R4) eth/rlp is token- and resolution-equivalent to the reference; (R5) every wire.RegisterInterface call assigns pairwise distinct, non-zero type bytes, and the WAL and reactor registrations cover the message types that are sent or logged. NOT decided: round-trip equality, 'never panics' beyond R2.",
+		Assume:    []string{"go-wire's JSON writer is injective on int/byte/string/[]byte/struct fields", "reflect-based decoding follows the struct field order"},
 	}
 }
 
@@ -36,6 +36,7 @@ func c18(c *Ctx) {
 	c18R6(c)
 	bufferOwnershipRule(c, "R7")
 	c18R8(c)
+	c18R9(c)
 }
 
 // c18R8: the varint reader accepts everything the writer emits.
@@ -57,7 +58,6 @@ func c18R8(c *Ctx) {
 		c.R.Ob(rule, name+":no-branch-on-decoded-magnitude", bad == "", c.P.Pos(f.F.Pos()), fname(f), "a value-dependent rejection makes the node unable to decode values its own encoder produces: "+bad)
 	}
 }
-
 
 // c18R6: decoded slices do not alias earlier chunks.
 func c18R6(c *Ctx) {
@@ -472,4 +472,54 @@ func bufferOwnershipRule(c *Ctx, id string) {
 		}
 	}
 	c.R.Ob(rule, "Bytes()-sites", n >= 5, "-", "", fmt.Sprintf("%d", n))
+}
+
+// c18R9: decoders report, they do not panic.
+func c18R9(c *Ctx) {
+	rule := c.R.Rule("R9", "decoders never panic on input bytes: in the decode-direction functions of go-wire (Read*, Get*, readReflect*) an explicit panic / no-return helper occurs only at the reviewed sites, which test the Go type being decoded or the caller's arguments, never the bytes read (the listed count per function is frozen: one more panic is reported)", 3)
+	// function -> reviewed number of panic sites, reason
+	reviewed := map[string]panicReview{
+		"gemmill/go-wire.readReflectBinary":            {1, "`Unknown field type`: switch over the reflect.Kind of the destination type (programmer error, not data)"},
+		"gemmill/go-wire.readReflectJSON":              {1, "`Unknown field type`: switch over the reflect.Kind of the destination type"},
+		"gemmill/go-wire.ReadBinaryPtr":                {1, "destination is not a pointer: caller's argument"},
+		"gemmill/go-wire.ReadJSONPtr":                  {1, "destination is not a pointer: caller's argument"},
+		"gemmill/go-wire.ReadJSONObjectPtr":            {1, "destination is not a pointer: caller's argument"},
+		"gemmill/go-wire.ReadJSON":                     {0, ""},
+		"gemmill/go-wire.GetTypeFromStructDeclaration": {1, "shape of a registered Go struct declaration (registration time, no input bytes)"},
+	}
+	nfn := 0
+	for _, fn := range c.P.FuncsOfPkg("gemmill/go-wire") {
+		if fn.Blocks == nil || fn.Parent() != nil {
+			continue
+		}
+		name := fn.Name()
+		if !(strings.HasPrefix(name, "Read") || strings.HasPrefix(name, "Get") || strings.HasPrefix(name, "readReflect")) {
+			continue
+		}
+		nfn++
+		f := c.Fn(fn)
+		n := 0
+		var first ssa.Instruction
+		for _, b := range fn.Blocks {
+			for _, ins := range b.Instrs {
+				if _, ok := ins.(*ssa.Panic); ok || c.NR.IsNoRetCall(ins) {
+					// only reachable sites count (the block before the cut is live)
+					if f.Has(ins) {
+						n++
+						if first == nil {
+							first = ins
+						}
+					}
+				}
+			}
+		}
+		short := core.Short(core.FuncName(fn))
+		rv := reviewed[short]
+		if n == 0 {
+			continue
+		}
+		pos := c.Pos(first)
+		c.R.Ob(rule, "panic-sites:"+short, n <= rv.n, pos, core.FuncName(fn), fmt.Sprintf("%d explicit panic site(s) in a decoder, %d reviewed (%s): bytes from a peer must produce an error, not a panic (blocks are decoded on the consensus goroutine, which has no recover)", n, rv.n, rv.why))
+	}
+	c.R.Ob(rule, "decoder-functions", nfn >= 30, "-", "", fmt.Sprintf("%d decode-direction functions examined", nfn))
 }
